@@ -42,6 +42,9 @@ def keyOriginOk (v : Bytes) : Bool :=
   | .ok k => decide (k.2.length ≤ 255)
   | .error _ => false
 
+/-- `assert_valid_hd_key_paths`: a derivation is keyed by a 33/65-byte public key or a 78-byte xpub -/
+def hdKeyLenOk (kd : Bytes) : Bool := kd.length == 33 || kd.length == 65 || kd.length == 78
+
 /-- `parse_taproot_bip32` -/
 def tapBip32Ok (v : Bytes) : Bool :=
   match VarInt.parse v Gen.VarInt.MAX_SIZE with
@@ -68,13 +71,15 @@ structure Spec where
   whole : List Nat              -- whole-value fields (key = the type byte alone)
   keyed : List Nat              -- key-data fields
   v2 : List Nat                 -- refused when parsing at version 0
-  v0only : List Nat             -- refused when parsing at version 2
+  v2only : List Nat             -- not written when serializing at version 0 (`_V2_ONLY`)
+  v0only : List Nat             -- refused when parsing, and not written, at version 2
   presentIfNotNone : List Nat   -- written whenever present, whatever the value
   objects : List Nat            -- decode to objects that are never falsy (transactions, outputs)
   emptyIs : List (Nat × Bytes)  -- fields whose falsy value is not the empty octet string
   finals : List Nat             -- a truthy value here makes the map "finalized"
   droppedOnceFinal : List Nat
   valueOk : Nat → Bytes → Bool
+  keyOk : Nat → Bytes → Bool    -- check on the key data of a key-data field
 
 namespace Spec
 variable (s : Spec)
@@ -85,13 +90,20 @@ def cls (k : Bytes) : Nat := if s.known (tyOf k) then tyOf k else 256
 /-- position in the emission order -/
 def rank (k : Bytes) : Nat := s.order.idxOf (s.cls k)
 
+/-- `assert_valid_psbt_version`: the versions `parse` and `serialize` take -/
+def admits (ver : Nat) : Bool := ver == 0 || ver == 2
+
+/-- fields the loop of `serialize` passes over at this version -/
+def gated (ver : Nat) (ty : Nat) : Bool :=
+  (ver == 0 && s.v2only.contains ty) || (ver != 0 && s.v0only.contains ty)
+
 /-- one record through the dispatch of `parse` -/
 def recordOk (ver : Nat) (r : Rec) : Bool :=
   let ty := tyOf r.1
   if ver = 0 && s.v2.contains ty then false
   else if ver != 0 && s.v0only.contains ty then false
   else if s.whole.contains ty then (keyData r.1).isEmpty && s.valueOk ty r.2
-  else if s.keyed.contains ty then s.valueOk ty r.2
+  else if s.keyed.contains ty then s.keyOk ty (keyData r.1) && s.valueOk ty r.2
   else true
 
 /-- `not value` for the value a whole-value field decodes to -/
@@ -136,23 +148,25 @@ def Typed.finalized (s : Spec) (t : Typed) : Bool :=
 def sortKeys (l : List Rec) : List Rec := l.mergeSort (fun a b => bytesLe a.1 b.1)
 
 /-- one turn of the loop of `serialize` -/
-def emit (s : Spec) (t : Typed) (fin : Bool) (ty : Nat) : List Rec :=
+def emit (s : Spec) (ver : Nat) (t : Typed) (fin : Bool) (ty : Nat) : List Rec :=
   if ty = 256 then sortKeys t.unknown
+  else if s.gated ver ty then []
   else if fin && s.droppedOnceFinal.contains ty then []
   else if s.whole.contains ty then
     (t.whole.filter (fun e => e.1 == ty && !s.falsy ty e.2)).map (fun e => ([UInt8.ofNat ty], e.2))
   else sortKeys ((t.keyed.filter (fun e => e.1 == ty)).map (fun e => (UInt8.ofNat ty :: e.2.1, e.2.2)))
 
 /-- `serialize` -/
-def toRecs (s : Spec) (t : Typed) : List Rec := s.order.flatMap (emit s t (t.finalized s))
+def toRecs (s : Spec) (ver : Nat) (t : Typed) : List Rec := s.order.flatMap (emit s ver t (t.finalized s))
 
 /-- `X.parse(b, psbt_version=ver).serialize(psbt_version=ver)` on the octets of one map -/
 def reser (s : Spec) (ver : Nat) (b : Bytes) : Except Err Bytes :=
   match parseMap b with
   | .error e => .error e
   | .ok (recs, rest) =>
-    if !rest.isEmpty then .error .trailing
-    else if recs.all (s.recordOk ver) then .ok (serMap (toRecs s (fromRecs s recs)))
+    if !s.admits ver then .error .invalid
+    else if !rest.isEmpty then .error .trailing
+    else if recs.all (s.recordOk ver) then .ok (serMap (toRecs s ver (fromRecs s recs)))
     else .error .invalid
 
 def runReser (s : Spec) (ver : Nat) (b : Bytes) : String :=
@@ -166,13 +180,15 @@ def specIn : Spec where
   whole := Gen.Wire.PSBT_IN_WHOLE
   keyed := Gen.Wire.PSBT_IN_KEYED
   v2 := Gen.Wire.PSBT_IN_V2
+  v2only := Gen.Wire.PSBT_IN_V2_ONLY
   v0only := []
   presentIfNotNone := Gen.Wire.PSBT_IN_PRESENT_IF_NOT_NONE
   objects := [Gen.Wire.PSBT_IN_NON_WITNESS_UTXO, Gen.Wire.PSBT_IN_WITNESS_UTXO]
   emptyIs := [(Gen.Wire.PSBT_IN_FINAL_SCRIPTWITNESS, [0])]     -- the empty witness stack
-  finals := [Gen.Wire.PSBT_IN_FINAL_SCRIPTSIG, Gen.Wire.PSBT_IN_FINAL_SCRIPTWITNESS]
+  finals := Gen.Wire.PSBT_IN_FINALS
   droppedOnceFinal := Gen.Wire.PSBT_IN_DROPPED_ONCE_FINALIZED
   valueOk := valueOkIn
+  keyOk := fun ty kd => !Gen.Wire.PSBT_IN_KEYORIGIN.contains ty || hdKeyLenOk kd
 
 -- ------------------------------------------------------------------ output maps (psbt/psbt_out.py)
 /- `PsbtOut.parse / serialize` are written out field by field; their tables are read off the syntax
@@ -202,6 +218,7 @@ def specOut : Spec where
   whole := Gen.Wire.PSBT_OUT_WHOLE
   keyed := Gen.Wire.PSBT_OUT_KEYED
   v2 := Gen.Wire.PSBT_OUT_V2
+  v2only := Gen.Wire.PSBT_OUT_V2
   v0only := []
   presentIfNotNone := Gen.Wire.PSBT_OUT_PRESENT_IF_NOT_NONE
   objects := []
@@ -209,6 +226,7 @@ def specOut : Spec where
   finals := []
   droppedOnceFinal := []
   valueOk := valueOkOut
+  keyOk := fun ty kd => ty != 2 || hdKeyLenOk kd
 
 -- ------------------------------------------------------------------ global map (psbt/psbt.py)
 /-- `deserialize_count`: one canonical CompactSize and nothing else -/
@@ -220,7 +238,7 @@ def countOk (v : Bytes) : Bool :=
 /-- the unsigned transaction of a version 0 psbt: `deserialize_tx(…, include_witness=False)` -/
 def unsignedTxOk (v : Bytes) : Bool :=
   match tx.parseAll v with
-  | .ok t => !t.isSegwit
+  | .ok t => !t.isSegwit && t.vin.all (fun i => i.scriptSig.isEmpty)   -- "non empty script_sig or witness"
   | .error _ => false
 
 def valueOkGlobal (ty : Nat) (v : Bytes) : Bool :=
@@ -236,6 +254,7 @@ def specGlobal : Spec where
   whole := Gen.Wire.PSBT_GLOBAL_WHOLE
   keyed := Gen.Wire.PSBT_GLOBAL_KEYED
   v2 := Gen.Wire.PSBT_GLOBAL_V2
+  v2only := Gen.Wire.PSBT_GLOBAL_V2
   v0only := [Gen.Wire.PSBT_GLOBAL_UNSIGNED_TX]
   presentIfNotNone := Gen.Wire.PSBT_GLOBAL_PRESENT_IF_NOT_NONE
   objects := [Gen.Wire.PSBT_GLOBAL_UNSIGNED_TX]
@@ -243,6 +262,7 @@ def specGlobal : Spec where
   finals := []
   droppedOnceFinal := []
   valueOk := valueOkGlobal
+  keyOk := fun ty kd => ty != Gen.Wire.PSBT_GLOBAL_XPUB || hdKeyLenOk kd
 
 /-- `_global_version`: the value of the version record, 0 when there is none -/
 def globalVersion (recs : List Rec) : Nat :=
